@@ -305,7 +305,11 @@ func (e *Engine) checkSubs(ep int) {
 		}
 		return
 	}
-	nreset := 0
+	nreset, nresetServe := 0, 0
+	serveTask := "serve"
+	if ep > 0 {
+		serveTask = "serve" + strconv.Itoa(ep+1)
+	}
 	customSeen := map[int]int{}
 	for i, p := range pubs {
 		if p.Subject != "system.reset" {
@@ -334,6 +338,9 @@ func (e *Engine) checkSubs(ep int) {
 			continue
 		}
 		nreset++
+		if p.Task == serveTask {
+			nresetServe++
+		}
 		e.H.Evals++
 		if fmt.Sprint(setOf(ev.Resources)) != fmt.Sprint(resSet) || fmt.Sprint(setOf(ev.Access)) != fmt.Sprint(accSet) {
 			e.H.Violate("C09", "reset-content", "", fmt.Sprintf("service %q owned=%v: system.reset announced resources=%v access=%v, expected resources=%v access=%v", c.SvcName, c.Owned, ev.Resources, ev.Access, resSet, accSet))
@@ -343,8 +350,11 @@ func (e *Engine) checkSubs(ep int) {
 		// one of the service's subscriptions failed: it must stop instead of
 		// announcing an ownership it cannot serve
 		e.H.Evals++
-		if nreset > 0 {
-			e.H.Violate("C09", "announced-despite-failed-subscription", "", fmt.Sprintf("service %q owned=%v: a subscription failed while starting, yet system.reset was published %d times; subscriptions: %v", c.SvcName, c.Owned, nreset, subjectsOf(conn)))
+		// (a ResetAll of another goroutine is let in as soon as the state is
+		// started, which is before the subscriptions are made: only the
+		// announcement of the Serve call itself counts here)
+		if nresetServe > 0 {
+			e.H.Violate("C09", "announced-despite-failed-subscription", "", fmt.Sprintf("service %q owned=%v: a subscription failed while starting, yet Serve published system.reset %d times; subscriptions: %v", c.SvcName, c.Owned, nresetServe, subjectsOf(conn)))
 		}
 		return
 	}
